@@ -496,24 +496,21 @@ fn gen_pair(rng: &mut Rng, cfg: &str) -> (B, B) {
                 B { xc: x, yc: y, angle: ang, aspect: (2.0 * hw) / (2.0 * hh), h: 2.0 * hh }
             };
             let d = r1 + r2;
-            // direction: axis or a Pythagorean direction (3/5, 4/5) when d is a multiple of 5
-            let (mut dx, mut dy) = if rng.chance(1, 2) { (d, 0.0) } else { (0.0, d) };
-            if (d / 5.0).fract() == 0.0 && rng.chance(1, 2) {
+            // k = 0: exactly on the boundary; k = +-1: a dyadic step 2^-8 beyond / before it (squares stay exact)
+            let k = rng.range(-1, 1) as f32;
+            let step = k / 256.0;
+            let (mut dx, mut dy) = if rng.chance(1, 2) { (d + step, 0.0) } else { (0.0, d + step) };
+            if (d / 5.0).fract() == 0.0 && rng.chance(1, 3) {
+                // a Pythagorean direction (3/5, 4/5)
                 dx = d / 5.0 * 3.0;
                 dy = d / 5.0 * 4.0;
-            }
-            let (x0, y0) = (rng.range(-8, 8) as f32, rng.range(-8, 8) as f32);
-            let bump = |v: f32, k: i32| {
-                if v == 0.0 {
-                    v
-                } else {
-                    f32::from_bits((v.to_bits() as i64 + k as i64) as u32)
+                if k != 0.0 {
+                    dx += step;
                 }
-            };
-            let k = rng.range(-1, 1) as i32;
-            let a = mk(hw1, hh1, rng.chance(1, 2), rnd_angle(rng), x0, y0);
-            // aspect must be exactly representable for the radius to be exact: only keep such boxes unswapped
-            let b = mk(hw2, hh2, rng.chance(1, 2), rnd_angle(rng), x0 + bump(dx, k), y0 + bump(dy, k));
+            }
+            let (x0, y0) = if rng.chance(1, 2) { (0.0, 0.0) } else { (rng.range(-8, 8) as f32, rng.range(-8, 8) as f32) };
+            let a = mk(hw1, hh1, false, rnd_angle(rng), x0, y0);
+            let b = mk(hw2, hh2, false, rnd_angle(rng), x0 + dx, y0 + dy);
             (a, b)
         }
         _ => panic!("unknown configuration {}", cfg),
